@@ -53,7 +53,8 @@ CFG = {
         "inter_raw err": r"^inter_raw .*=> err",
     },
     "gaps": ["aliasing, provenance, uninitialised memory, data races and unsafe code inside std/bytemuck/byteorder are outside the model",
-             "theorems cover the index arithmetic of the unsafe sites in the model; the Rust sites are tied by the recorders on generated inputs only"],
+             "theorems cover the index arithmetic of the unsafe sites in the model; the Rust sites are tied by the recorders on generated inputs only",
+             "fidelity audit of the store kernels and 32-bit iterators (notes/fidelity-stores-iter32.md): the index-level loops of Unsafe.lean / UnsafeIter.lean are the mirrored twins of the list-level model the correspondence runs; all ties are unconditional equalities (C15_merge_eq_model, C15_retain_eq_model, C15_biter_erasure) and the last missing one — retain with the stateless closures of ArrayStore &= / -= &BitmapStore = List.filter — is added (C15_retain_filter_eq_model)"],
     "level_text": "Partial by nature. Theorems (Lean 4): for arbitrary, also ill-formed, model states the index computed at each unchecked access is in bounds. Tie: cfg(roaring_verif) recorders assert index < len immediately before each of the 16 unchecked accesses while the whole public API runs over ill-formed values from the unchecked decoders; per-site (accesses, max index, min slack) are reported in the evidence.",
     "level_note": "A Lean theorem cannot exhibit undefined behaviour; what is proved is the bounds logic. Not covered: aliasing/provenance/uninitialised memory/data races; unsafe inside dependencies; inputs not generated. Hook = add-only cfg(roaring_verif) code in /repo (MANIFEST.hooks).",
     "technique": "Lean 4 theorems on index bounds of every unsafe site for arbitrary states + guarded bounds recorders exercised by API sweeps over ill-formed values (correspondence is implementation-only for this property)",
